@@ -245,7 +245,10 @@ def _module_level_cases(case):
 
                 cells = []
                 for nm in code.co_freevars:
-                    cells.append(types.CellType(dict(keep_vars=keep_vars, store_non_tensors=store, save_to_state_dict=stub)[nm]))
+                    known = dict(keep_vars=keep_vars, store_non_tensors=store, save_to_state_dict=stub)
+                    if nm not in known:
+                        raise ShadowAbort(f"unexpected free variable {nm} of the nested function save_to_state_dict")
+                    cells.append(types.CellType(known[nm]))
                 fn = types.FunctionType(code, om.OptimizerModule.state_dict.__globals__, "save_to_state_dict", None, tuple(cells))
                 dest = {}
                 tag = f"[{case}/kv{int(keep_vars)}s{int(store)}/{'-'.join(kinds)}]"
@@ -291,7 +294,11 @@ def _module_level_cases(case):
             return old_state
 
         def build():
-            cells = [types.CellType(dict(store_non_tensors=store, load_from_new_state_to_old_state=stub)[nm]) for nm in code.co_freevars]
+            known = dict(store_non_tensors=store, load_from_new_state_to_old_state=stub)
+            for nm in code.co_freevars:
+                if nm not in known:
+                    raise ShadowAbort(f"unexpected free variable {nm} of the nested function load_from_new_state_to_old_state")
+            cells = [types.CellType(known[nm]) for nm in code.co_freevars]
             return types.FunctionType(code, om.OptimizerModule.load_state_dict.__globals__, "load_from_new_state_to_old_state", None, tuple(cells))
 
         # tensor: in-place copy, same object returned
@@ -450,6 +457,52 @@ def native_tree_roundtrip(tier):
     return n, None
 
 
+def native_shared_and_reordered():
+    """(a) a container object referenced from two places of one module: state_dict holds the tensors along BOTH paths and loading reproduces
+    them; (b) loading does not depend on the insertion order of an index-keyed sub-dictionary (flat entries handed back sorted / reversed)."""
+    import torch
+    from optimizer_modules import OptimizerModule
+    from distributed_shampoo.utils.shampoo_checkpoint_utils import flatten, unflatten
+
+    class M(OptimizerModule):
+        pass
+
+    def build(off):
+        m = M()
+        shared_d = {"u": torch.arange(3.0) + off, "v": [torch.ones(2) * (off + 1)]}
+        shared_l = [torch.zeros(2) + off, torch.ones(2) + off]
+        shared_t = (torch.full((2,), 5.0 + off),)
+        m.a, m.b = shared_d, shared_d
+        m.c, m.d = shared_l, {"inner": shared_l, "again": shared_t}
+        m.e = shared_t
+        m.seq = [torch.full((2,), float(i) + off) for i in range(12)]
+        return m
+
+    src, dst = build(10.0), build(0.0)
+    sd = src.state_dict()
+
+    def count(d):
+        return sum(count(v) if isinstance(v, dict) else (1 if isinstance(v, torch.Tensor) else 0) for v in d.values())
+
+    want = 2 * 3 + 2 + 2 + 1 + 1 + 12  # a,b: (u, v[0]) each -> counted per path: a:2? see below
+    # per path: a -> {u, v:{0}} = 2 tensors, b -> 2, c -> 2, d.inner -> 2, d.again -> 1, e -> 1, seq -> 12
+    want = 2 + 2 + 2 + 2 + 1 + 1 + 12
+    if count(sd) != want:
+        return f"a container referenced from two places: state_dict holds {count(sd)} tensors, {want} are reachable through the attributes (both paths must be saved)"
+    for order in ("sorted", "reversed", "asis"):
+        flat = flatten(sd)
+        items = list(flat.items())
+        items = sorted(items, key=lambda kv: kv[0]) if order == "sorted" else (items[::-1] if order == "reversed" else items)
+        dst = build(0.0)
+        dst.load_state_dict(unflatten(dict(items)))
+        for i in range(12):
+            if not torch.equal(dst.seq[i], src.seq[i]):
+                return f"load after handing the flat entries back {order}: element {i} of a 12-element list received {dst.seq[i].tolist()} instead of {src.seq[i].tolist()}"
+        if not (torch.equal(dst.a["u"], src.a["u"]) and torch.equal(dst.d["inner"][1], src.c[1]) and torch.equal(dst.e[0], src.e[0])):
+            return f"load ({order}): tensors reachable through a shared container were not reproduced"
+    return None
+
+
 def native_module_roundtrip(seed, tier):
     import random
     import torch
@@ -534,6 +587,10 @@ def bounded(tier, seed):
     evals += n
     if bad:
         viol.append(dict(ob="bounded/flatten-unflatten-roundtrip", func="flatten/unflatten", input={}, text=bad, detail=bad, replay=dict(kind="tree")))
+    bad = native_shared_and_reordered()
+    evals += 1
+    if bad:
+        viol.append(dict(ob="bounded/shared-containers-and-key-order", func="OptimizerModule.state_dict/load_state_dict", input={}, text=bad, detail=bad, replay=dict(kind="shared")))
     m = 60 if tier == "quick" else 600
     for k in range(m):
         bad = native_module_roundtrip(seed * 1000 + k, tier)
@@ -558,7 +615,13 @@ def replay_file(doc):
     if rp.get("kind") == "tree":
         n, bad = native_tree_roundtrip("thorough")
         return bool(bad), bad or f"{n} trees round-trip"
+    if rp.get("kind") == "shared":
+        bad = native_shared_and_reordered()
+        return bool(bad), bad or "shared containers and reordered flat entries round-trip"
     if rp.get("kind") == "module":
+        bad = native_shared_and_reordered()
+        if bad:
+            return True, bad
         for k in range(400):
             bad = native_module_roundtrip(k, "quick")
             if bad:
